@@ -1,5 +1,5 @@
 //! C09 — -exec … ; / -execdir … ; and C08 — -exec … {} + / -execdir … {} +, with a recorder as the command.
-use super::c02::{build_scene, pick_roots, Scene};
+use super::c02::{build_scene, pick_exec_roots, Scene};
 use super::c07::nasty_names;
 use crate::case::{Case, Sink};
 use crate::fexpr::argv_of;
@@ -139,7 +139,7 @@ pub fn run_c09(ctx: &Ctx, sink: &mut Sink) {
             toks.push(format!("lit:{}", hex(b"F\n")));
             let n_script = rng.below(12);
             let script: Vec<u32> = (0..n_script).map(|_| *rng.pick(&[0u32, 0, 1, 2, 255])).collect();
-            let roots = pick_roots(&mut rng, &sc, true);
+            let roots = pick_exec_roots(&mut rng, &sc);
             let roots: Vec<(Vec<u8>, String)> = roots.into_iter().filter(|(_, w)| !w.ends_with("=missing")).collect();
             if roots.is_empty() { continue; }
             let (req, imp) = run_exec_case(ctx, &sc, "P", &roots, &ExecCase { toks, script }, &mut rng);
@@ -186,7 +186,13 @@ fn run_big(ctx: &Ctx, sink: &mut Sink, rng: &mut Rng, stack: u64, nfiles: usize,
     // ARG_MAX as glibc reports it under this stack limit
     let arg_max = std::cmp::max(std::cmp::min(stack / 4, 6 << 20), 128 << 10) as usize;
     let text = std::fs::read_to_string(&log).unwrap_or_default();
-    let inv: Vec<String> = text.lines().filter(|l| l.starts_with("C ")).map(|l| { let f: Vec<&str> = l.split(' ').collect(); format!("{}:{}:{}:{}", f[1], f[2], f[3], f[4]) }).collect();
+    let base = std::fs::canonicalize(&scene).unwrap();
+    let base = base.as_os_str().as_bytes().to_vec();
+    let rel = |h: &str| -> String {
+        let c = crate::wire::unhex(h);
+        if c == base { hex(b".") } else if c.starts_with(&base) && c.get(base.len()) == Some(&b'/') { hex(&c[base.len() + 1..]) } else { hex(&c) }
+    };
+    let inv: Vec<String> = text.lines().filter(|l| l.starts_with("C ")).map(|l| { let f: Vec<&str> = l.split(' ').collect(); format!("{}:{}:{}:{}:{}", f[1], f[2], f[3], f[4], rel(f.get(5).copied().unwrap_or("-"))) }).collect();
     let imp = format!("st={} inv={}", o.status.code().unwrap_or(999), if inv.is_empty() { ".".into() } else { inv.join(";") });
     let req = format!("findxc P {world} {} . {}", toks.join(","), arg_max - env_size);
     let mut tags = vec!["big", "nt"];
@@ -235,7 +241,7 @@ pub fn run_c08(ctx: &Ctx, sink: &mut Sink) {
             }
             let n_script = rng.below(6);
             let script: Vec<u32> = (0..n_script).map(|_| *rng.pick(&[0u32, 0, 0, 1, 3])).collect();
-            let roots = pick_roots(&mut rng, &sc, true);
+            let roots = pick_exec_roots(&mut rng, &sc);
             let (req, imp) = run_exec_case(ctx, &sc, "P", &roots, &ExecCase { toks: toks.clone(), script }, &mut rng);
             let mut tags = vec!["multi", "nt"];
             if dir { tags.push("execdir"); }
